@@ -51,6 +51,15 @@ Fixpoint run_ops (ops : list op) (t : target) : list res * target :=
               let '(xs, t'') := run_ops r t' in (x :: xs, t'')
   end.
 
+(* own keys are listed strings first, then symbols (10.1.11); the model keeps one insertion-ordered list, so
+   model-side key lists are normalised: the symbol key (code 4) moves behind the string keys *)
+Definition is_sym (k : key) : bool := N.eqb k 4.
+Definition norm_keys (l : list key) : list key := filter (fun k => negb (is_sym k)) l ++ filter is_sym l.
+Definition norm_props (ps : list (key * prop)) : list (key * prop) :=
+  filter (fun kp => negb (is_sym (fst kp))) ps ++ filter (fun kp => is_sym (fst kp)) ps.
+Definition norm_res (r : res) : res := match r with RKeys l => RKeys (norm_keys l) | _ => r end.
+Definition norm_target (t : target) : target := mkT (t_ext t) (t_proto t) (norm_props (t_props t)).
+
 Fixpoint all_res_eqb (a b : list res) : bool :=
   match a, b with
   | [], [] => true
@@ -77,7 +86,7 @@ Definition check_case (c : tcase) : bool :=
   | TLat t cl o unchanged => res_eqb o (spec_check cl t) && unchanged
   | THist d p => keys_eqb d p
   | TModel t0 ops obs final =>
-    let '(rs, t') := run_ops ops t0 in all_res_eqb obs rs && target_eqb final t'
+    let '(rs, t') := run_ops ops t0 in all_res_eqb obs (map norm_res rs) && target_eqb final (norm_target t')
   | TRev l => forallb (fun b => b) l && negb (Nat.eqb (length l) 0)
   | TFail => false
   end.
@@ -107,7 +116,7 @@ Definition expected (c : tcase) : texpected :=
   match c with
   | TLat t cl o u => ELat (spec_check cl t) (goja_check cl t) (res_eqb o (goja_check cl t) && u)
   | THist d p => EHist (first_diff 0 d p)
-  | TModel t0 ops _ _ => let '(rs, t') := run_ops ops t0 in EModel rs t'
+  | TModel t0 ops _ _ => let '(rs, t') := run_ops ops t0 in EModel (map norm_res rs) (norm_target t')
   | TRev _ => ERev
   | TFail => EFail
   end.
